@@ -97,3 +97,93 @@ Proof.
   - change (join (String c0 p) (x :: y :: parts')) with (x ++ String c0 p ++ join (String c0 p) (y :: parts')).
     rewrite (replace_app c0 p x _ Hx), (IH Hp). reflexivity.
 Qed.
+
+(* ------------------------------------------------------------------ splitting *)
+Lemma rev_aux_app : forall a b, rev_string_aux a b = (rev_string_aux a "" ++ b)%string.
+Proof.
+  induction a as [|x a IH]; intros b; simpl; [reflexivity|].
+  rewrite (IH (String x b)), (IH (String x "")). rewrite append_assoc. reflexivity.
+Qed.
+
+Lemma rev_aux_invol : forall a, rev_string_aux (rev_string_aux a "") "" = a.
+Proof.
+  assert (G : forall a b, rev_string_aux (rev_string_aux a b) "" = (rev_string_aux b "" ++ a)%string).
+  { induction a as [|x a IH]; intros b; simpl; [now rewrite append_nil_r|].
+    rewrite IH. simpl. rewrite (rev_aux_app b (String x "")), append_assoc. reflexivity. }
+  intros a. rewrite G. reflexivity.
+Qed.
+
+(* reading over a separator-free prefix only moves it (reversed) into the accumulator *)
+Lemma split_char_aux_prefix sep : forall a rest cur, avoids sep a = true ->
+  split_char_aux sep (a ++ rest) cur = split_char_aux sep rest (rev_string_aux a cur).
+Proof.
+  induction a as [|x a IH]; intros rest cur H; [reflexivity|].
+  simpl in H. apply andb_true_iff in H. destruct H as [Hx Ha]. apply negb_true_iff in Hx.
+  cbn [append split_char_aux]. rewrite Hx. rewrite (IH rest (String x cur) Ha). reflexivity.
+Qed.
+
+(* str.split(sep) undoes sep.join(parts) for separator-free parts *)
+Theorem split_join_char sep : forall parts, parts <> [] -> forallb (avoids sep) parts = true ->
+  split_char sep (join (String sep "") parts) = parts.
+Proof.
+  unfold split_char. induction parts as [|x parts IH]; intros Hne H; [contradiction|].
+  simpl in H. apply andb_true_iff in H. destruct H as [Hx Hp].
+  destruct parts as [|y parts'].
+  - simpl. rewrite <- (append_nil_r x) at 1. rewrite (split_char_aux_prefix sep x "" "" Hx). simpl. now rewrite rev_aux_invol.
+  - change (join (String sep "") (x :: y :: parts')) with (x ++ String sep "" ++ join (String sep "") (y :: parts'))%string.
+    rewrite (split_char_aux_prefix sep x _ "" Hx). cbn [append split_char_aux]. rewrite Ascii.eqb_refl. rewrite rev_aux_invol.
+    f_equal. apply IH; [discriminate | exact Hp].
+Qed.
+
+(* the first piece of str.split(pattern): everything before the first occurrence *)
+Lemma split_str_fuel_prefix c0 p : forall a fuel rest cur, avoids c0 a = true -> String.length a <= fuel ->
+  split_str_fuel fuel (String c0 p) (a ++ rest) cur
+  = split_str_fuel (fuel - String.length a) (String c0 p) rest (rev_string_aux a cur).
+Proof.
+  induction a as [|x a IH]; intros fuel rest cur Ha Hf.
+  - cbn [append String.length rev_string_aux]. now rewrite Nat.sub_0_r.
+  - simpl in Ha. apply andb_true_iff in Ha. destruct Ha as [Hx Ha]. apply negb_true_iff in Hx.
+    destruct fuel as [|f]; [simpl in Hf; lia|].
+    change ((String x a) ++ rest)%string with (String x (a ++ rest)). cbn [split_str_fuel].
+    assert (E : startswith (String c0 p) (String x (a ++ rest)) = false) by (cbn [startswith]; rewrite Ascii.eqb_sym in Hx; now rewrite Hx).
+    rewrite E. rewrite (IH f rest (String x cur) Ha) by (simpl in Hf; lia). reflexivity.
+Qed.
+
+Theorem split_str_first c0 p a b : avoids c0 a = true ->
+  match split_str (String c0 p) (a ++ String c0 p ++ b) with x :: _ => x | [] => ""%string end = a.
+Proof.
+  intros Ha. unfold split_str.
+  rewrite (split_str_fuel_prefix c0 p a _ _ "" Ha) by (rewrite length_append; lia).
+  remember (S (String.length (a ++ String c0 p ++ b)) - String.length a) as f eqn:Ef.
+  destruct f as [|f]; [rewrite !length_append in Ef; cbn [String.length] in Ef; lia|].
+  change (String c0 p ++ b)%string with (String c0 (p ++ b)). cbn [split_str_fuel].
+  change (String c0 (p ++ b)) with (String c0 p ++ b)%string. rewrite startswith_self. now rewrite rev_aux_invol.
+Qed.
+
+Theorem split_str_none c0 p a : avoids c0 a = true -> split_str (String c0 p) a = [a].
+Proof.
+  intros Ha. unfold split_str. rewrite <- (append_nil_r a) at 2.
+  rewrite (split_str_fuel_prefix c0 p a _ "" "" Ha) by lia.
+  replace (S (String.length a) - String.length a) with 1 by lia. simpl. now rewrite rev_aux_invol.
+Qed.
+
+Lemma split_str_fuel_nonempty sep : forall f s cur, split_str_fuel f sep s cur <> [].
+Proof.
+  induction f as [|f IH]; intros s cur; simpl; [discriminate|].
+  destruct s; [discriminate|]. destruct (startswith sep (String a s)); [discriminate | apply IH].
+Qed.
+
+Lemma contains_str_app c0 p a b : avoids c0 a = true -> contains_str (String c0 p) (a ++ String c0 p ++ b) = true.
+Proof.
+  intros Ha. unfold contains_str, split_str.
+  rewrite (split_str_fuel_prefix c0 p a _ _ "" Ha) by (rewrite length_append; lia).
+  remember (S (String.length (a ++ String c0 p ++ b)) - String.length a) as f eqn:Ef.
+  destruct f as [|f]; [rewrite !length_append in Ef; cbn [String.length] in Ef; lia|].
+  change (String c0 p ++ b)%string with (String c0 (p ++ b)). cbn [split_str_fuel].
+  change (String c0 (p ++ b)) with (String c0 p ++ b)%string. rewrite startswith_self.
+  match goal with |- context [split_str_fuel f ?sep ?s ?cur] => pose proof (split_str_fuel_nonempty sep f s cur) as Hn; destruct (split_str_fuel f sep s cur) end;
+    [contradiction | reflexivity].
+Qed.
+
+Lemma contains_str_none c0 p a : avoids c0 a = true -> contains_str (String c0 p) a = false.
+Proof. intros Ha. unfold contains_str. rewrite (split_str_none c0 p a Ha). reflexivity. Qed.
